@@ -176,6 +176,11 @@ func runC09(c *Ctx) {
 					if cal.Pkg != nil && allowedPkgFns[cal.Pkg.Pkg.Name()+"."+cal.Name()] {
 						return
 					}
+					// calls that leave the gengine module (logging, formatting, time …) are not the rule
+					// interpreter; reflect, which panics on kind mismatches, is the exception
+					if cal.Pkg != nil && !strings.HasPrefix(cal.Pkg.Pkg.Path(), modPath) && cal.Pkg.Pkg.Path() != "reflect" {
+						return
+					}
 					bad, badPos = "a call of "+fnName(cal)+", which is not panic-safe", i2.Pos()
 				case *ssa.IndexAddr:
 					if al, isAl := t.X.(*ssa.Alloc); isAl && al.Comment == "varargs" {
